@@ -209,6 +209,9 @@ pub fn reg_event(uid: Uid, call: RegCall, ok: bool, injected: bool) {
             // only calls the loop makes on its own after the source's event processing belong to the window
             s.reg_window.push((call, ok));
         }
+        if ok && matches!(call, RegCall::Register | RegCall::Reregister) {
+            s.sparse_sub_ids = false;
+        }
         match call {
             RegCall::Register | RegCall::Reregister if ok => s.registered = true,
             RegCall::Unregister => s.registered = false,
